@@ -1,16 +1,23 @@
 #!/bin/bash
 # o5_selfcheck.sh [repo] - self check of /verif/dataset/o5_acf.py (C18, group O5).
 #   1. the unmodified tree must give exactly: acf_lag0 ok, acf_range failed (only the debug-assertion
-#      obligations), acf_shift ok, acf_scale failed (only the branch-depends-on-scale obligation);
-#   2. two mutants applied with sed to a COPY of src/cmb_dataset.c must be killed:
+#      obligations: known finding), acf_shift ok, acf_scale ok (the guard is `!(var > 0.0)`: the
+#      branch-does-not-depend-on-scale obligation is PROVED);
+#   2. three mutants applied with sed to a COPY of src/cmb_dataset.c must be killed:
 #        m1  `dsp->xa[ui + ulag] - m1`  ->  `dsp->xa[ui + ulag] + m1`      (definition or shift obligation)
 #        m2  `acov = dk / ((double)(ustop))` -> `dk / ((double)(dsp->count))` (definition obligation)
-# The repo is never touched: src/ and include/ are copied to a mktemp -d scratch directory.
+#        m3  `if (!(var > 0.0))` -> `if (var < 1e-9)`: the absolute threshold again (defect (e)); must be a
+#            FAILED acf_scale (only the branch-depends-on-scale obligation, native replay agreeing), not an
+#            extraction break, and must leave acf_lag0 / acf_shift ok
+# The repo is never touched: src/ and include/ are copied to a mktemp -d scratch directory under
+# ${O5_SCRATCH:-/var/tmp/p}, removed on exit.
 # exit 0 iff everything is as expected.
 REPO=${1:-/repo}
 PY=/usr/local/bin/python3-vt
 HERE=$(cd "$(dirname "$0")" && pwd)
-W=$(mktemp -d /tmp/c18o5.selfcheck.XXXXXX) || exit 3
+SCRATCH=${O5_SCRATCH:-/var/tmp/p}
+mkdir -p "$SCRATCH" || exit 3
+W=$(mktemp -d "$SCRATCH/c18o5.selfcheck.XXXXXX") || exit 3
 trap 'rm -rf "$W"' EXIT
 rc=0
 
@@ -19,7 +26,7 @@ copy() {  # copy <name>
 }
 
 run() {   # run <tree> <name>  -> $W/<name>.json, prints group statuses and failed obligations
-    "$PY" "$HERE/o5_acf.py" "$1" "$W/$2.out" > "$W/$2.json" 2> "$W/$2.err"
+    timeout -k 5 900 "$PY" "$HERE/o5_acf.py" "$1" "$W/$2.out" > "$W/$2.json" 2> "$W/$2.err"
     echo "  exit status $?"
     "$PY" - "$W/$2.json" <<'EOF' 2>/dev/null
 import json, sys
@@ -34,11 +41,12 @@ for g in d['groups']:
 EOF
 }
 
-check() { # check <name> <python expression over G (id -> group) and F (id -> list of failed descs)>
+check() { # check <name> <python expression over G (id -> group), F (id -> list of failed descs), NAT (id -> native replay)>
     "$PY" - "$W/$1.json" "$2" <<'EOF' 2>/dev/null
 import json, sys
 d = json.load(open(sys.argv[1]))
 G = {g['id'].split('.')[-1]: g for g in d['groups']}
+NAT = {k: g.get('native', {}) for k, g in G.items()}
 F = {k: [o['desc'] for o in g['obligations'] if o['status'] != 'SUCCESS'] for k, g in G.items()}
 sys.exit(0 if eval(sys.argv[2]) else 1)
 EOF
@@ -50,7 +58,9 @@ run "$W/base" base
 EXPECT_BASE='len(G) == 4 and G["acf_lag0"]["status"] == "ok" and G["acf_shift"]["status"] == "ok"
  and G["acf_range"]["status"] == "failed" and all("debug assertion" in x for x in F["acf_range"])
  and any("(acf[ulag] >= -1.0) && (acf[ulag] <= 1.0) cannot fail" in x for x in F["acf_range"])
- and G["acf_scale"]["status"] == "failed" and len(F["acf_scale"]) == 1 and "does not depend on the scale c" in F["acf_scale"][0]'
+ and G["acf_scale"]["status"] == "ok"
+ and any("does not depend on the scale c (proved" in o["desc"] and "var > 0" in o["desc"] for o in G["acf_scale"]["obligations"])
+ and not any("1e-9" in o["desc"] for g in G.values() for o in g["obligations"])'
 if check base "$(echo $EXPECT_BASE)"; then echo "  -> as expected"; else echo "  -> UNEXPECTED statuses on the unmodified tree"; rc=1; fi
 
 echo "== mutant m1: dsp->xa[ui + ulag] - m1  ->  + m1"
@@ -68,6 +78,18 @@ if cmp -s "$W/m2/src/cmb_dataset.c" "$REPO/src/cmb_dataset.c"; then echo "  -> m
 run "$W/m2" m2
 if check m2 'any("equals r_" in x for x in F["acf_lag0"])'; then
     echo "  -> killed (definition obligation)"; else echo "  -> m2 SURVIVED"; rc=1; fi
+
+echo "== mutant m3: if (!(var > 0.0))  ->  if (var < 1e-9)   (absolute variance threshold, defect (e))"
+copy m3
+sed -i 's/if (!(var > 0\.0)) {/if (var < 1e-9) {/' "$W/m3/src/cmb_dataset.c"
+if cmp -s "$W/m3/src/cmb_dataset.c" "$REPO/src/cmb_dataset.c"; then echo "  -> mutant m3 did not apply"; rc=1; fi
+run "$W/m3" m3
+EXPECT_M3='G["acf_scale"]["status"] == "failed" and len(F["acf_scale"]) == 1
+ and "does not depend on the scale c" in F["acf_scale"][0] and "ABSOLUTE constant 1e-9" in F["acf_scale"][0]
+ and NAT["acf_scale"].get("agrees") is True
+ and G["acf_lag0"]["status"] == "ok" and G["acf_shift"]["status"] == "ok"'
+if check m3 "$(echo $EXPECT_M3)"; then
+    echo "  -> killed (acf_scale: branch depends on the scale c; native witness agrees)"; else echo "  -> m3 SURVIVED (or was not reported as a failed acf_scale)"; rc=1; fi
 
 if [ $rc -eq 0 ]; then echo "SELFCHECK OK"; else echo "SELFCHECK FAILED"; fi
 exit $rc
